@@ -1,5 +1,6 @@
 import TrucModel.Proofs.BuilderProps
 import TrucModel.Props.Examples
+import TrucModel.Model.Resolver
 /-
   C18 — Layout depends only on the resolver's answers; type tables are faithful.
   The model has no access to the host's sizes: every entry point records exactly the numbers it is
@@ -38,3 +39,72 @@ example : ((BState.init.addDatum (Ex.I "a" 12 4)).1.defs.map (fun i => (i.size, 
   decide +kernel
 
 end Truc
+
+namespace Truc.Res
+
+theorem lookup_append_new {α : Type} (t : List (String × α)) (key : String) (e : α) (h : t.lookup key = none) :
+    (t ++ [(key, e)]).lookup key = some e := by
+  induction t with
+  | nil => simp [List.lookup]
+  | cons p rest ih =>
+    obtain ⟨k, v⟩ := p
+    by_cases hk : (key == k) = true
+    · simp [List.lookup, hk] at h
+    · have hk' : (key == k) = false := by simpa using hk
+      simp only [List.cons_append, List.lookup, hk'] at h ⊢
+      exact ih h
+
+theorem lookup_append_other {α : Type} (t : List (String × α)) (key k' : String) (e : α) (h : k' ≠ key) :
+    (t ++ [(key, e)]).lookup k' = t.lookup k' := by
+  induction t with
+  | nil =>
+    have : (k' == key) = false := by simpa using h
+    simp [List.lookup, this]
+  | cons p rest ih =>
+    obtain ⟨k, v⟩ := p
+    by_cases hk : (k' == k) = true
+    · simp [List.lookup, hk]
+    · have hk' : (k' == k) = false := by simpa using hk
+      simp only [List.cons_append, List.lookup, hk']
+      exact ih
+
+/-- a table answers exactly what was registered … -/
+theorem C18_table_registered (t t' : Table) (key : String) (e : Entry) (h : register t key e = some t') :
+    lookupKey t' key = some e := by
+  unfold register at h
+  split at h
+  · simp at h
+  · rename_i hn
+    simp only [Option.some.injEq] at h
+    subst h
+    have : t.lookup key = none := by cases hl : t.lookup key <;> simp_all
+    exact lookup_append_new t key e this
+
+/-- … keeps every earlier answer … -/
+theorem C18_table_keeps (t t' : Table) (key k' : String) (e : Entry) (h : register t key e = some t') (hne : k' ≠ key) :
+    lookupKey t' k' = lookupKey t k' := by
+  unfold register at h
+  split at h
+  · simp at h
+  · simp only [Option.some.injEq] at h
+    subst h
+    exact lookup_append_other t key k' e hne
+
+/-- … refuses a second registration of the same name … -/
+theorem C18_table_duplicate (t t' : Table) (key : String) (e e2 : Entry) (h : register t key e = some t') :
+    register t' key e2 = none := by
+  have := C18_table_registered t t' key e h
+  unfold lookupKey at this
+  unfold register
+  simp [this]
+
+/-- … and a dynamic lookup by any spelling with the same normal form gives the same answer -/
+theorem C18_table_lookup_normalised (t : Table) (s₁ s₂ : String) (h : TN.normalize s₁ = TN.normalize s₂) :
+    lookup t s₁ = lookup t s₂ := by
+  unfold lookup; rw [h]
+
+example : (do
+    let t ← register [] "Vec < u8 >" ⟨"Vec < u8 >", 12, 4, false⟩
+    lookup t "alloc::vec::Vec<u8>") = some ⟨"Vec < u8 >", 12, 4, false⟩ := by decide +kernel
+
+end Truc.Res
